@@ -178,6 +178,7 @@ def consumed_keys():
 
 def run(rep: core.Report):
     _r16g(rep)
+    _r16k(rep)
     _r16j(rep)
     from rules import c03
 
@@ -708,6 +709,66 @@ def _r16j(rep):
         raise AnalysisError("R16j: no class-level mutable default found (PhonopyYamlDumperBase._default_dumper_settings on the confirmed tree)")
 
 
+
+def _r16k(rep):
+    """What the file stores is used when the caller does not say otherwise: the resolved value, not the raw argument."""
+    LOAD = "phonopy/cui/load.py"
+    rep.rule("R16k", "resolved arguments of phonopy.load(): when a parameter p has a resolved twin _p (p itself, else the value stored in the phonopy.yaml file) and _p is assigned on every path that reaches a statement, calls in that statement receive _p, not the raw p -- otherwise the default units / NAC factor / cell settings of the calculator stored in the file are replaced by those of 'no calculator' when the caller relies on the file", 1)
+    fn = core.find_def(LOAD, "load")
+    params = {a.arg for a in fn.args.args + fn.args.kwonlyargs}
+    twins = {}
+    for st in ast.walk(fn):
+        if isinstance(st, ast.Assign) and len(st.targets) == 1 and isinstance(st.targets[0], ast.Name) and st.targets[0].id.startswith("_") and st.targets[0].id[1:] in params:
+            twins.setdefault(st.targets[0].id[1:], []).append(st)
+    twins = {p_: sts for p_, sts in twins.items() if any(isinstance(n, ast.Name) and n.id == p_ for st in sts for n in ast.walk(st.value)) or len(sts) > 1}
+    if "calculator" not in twins:
+        raise AnalysisError("phonopy.cui.load.load: the resolved calculator (_calculator) vanished")
+    found = []
+
+    def terminates(stmts):
+        return bool(stmts) and isinstance(stmts[-1], (ast.Raise, ast.Return))
+
+    def walk(stmts, defined):
+        defined = set(defined)
+        for st in stmts:
+            if isinstance(st, ast.If):
+                for c in ast.walk(st.test):
+                    check_calls(c, defined)
+                d1 = walk(st.body, defined)
+                d2 = walk(st.orelse, defined)
+                if terminates(st.body):
+                    defined = d2
+                elif terminates(st.orelse):
+                    defined = d1
+                else:
+                    defined = d1 & d2
+            elif isinstance(st, (ast.For, ast.While, ast.With, ast.Try)):
+                for blk in (getattr(st, "body", []), getattr(st, "orelse", []), getattr(st, "finalbody", [])):
+                    walk(blk, defined)
+            else:
+                for c in ast.walk(st):
+                    check_calls(c, defined)
+                if isinstance(st, ast.Assign) and len(st.targets) == 1 and isinstance(st.targets[0], ast.Name) and st.targets[0].id[1:] in twins and st.targets[0].id.startswith("_"):
+                    defined.add(st.targets[0].id[1:])
+        return defined
+
+    def check_calls(c, defined):
+        if isinstance(c, ast.Call):
+            for a in list(c.args) + [k.value for k in c.keywords]:
+                if isinstance(a, ast.Name) and a.id in twins:
+                    found.append((c, a.id, a.id in defined))
+
+    walk(fn.body, set())
+    n = 0
+    for c, p_, after in found:
+        if not after:
+            continue
+        n += 1
+        rep.instance("R16k", LOAD, "load", f"{core.norm(core.src(c), 70)} with raw '{p_}' although _{p_} is resolved", False,
+                     f"'{core.norm(core.src(c), 60)}' is given the raw argument '{p_}' at a point where the resolved _{p_} (the argument, else what the phonopy.yaml file stores) exists on every path: when the caller leaves '{p_}' to the file, this call sees None -- e.g. the default unit factors of VASP instead of those of the calculator saved in the file, so load() of a saved qe / wien2k calculation rescales all frequencies", line=c.lineno)
+    rep.instance("R16k", LOAD, "load", f"resolved twins {sorted('_' + t for t in twins)}: {len([1 for _, _, a in found if not a])} raw uses before resolution, {n} after", n == 0, "", line=fn.lineno, nontrivial=False)
+
+
 def selftest():
     V = []
     b = lambda name, file, old, new, rule, expect="", **kw: V.append(dict(name=name, kind="break", file=file, old=old, new=new, rule=rule, expect=expect, **kw))
@@ -726,4 +787,5 @@ def selftest():
     n("default filled by a merge with the defaults first", LOADH, '    if _nac_params and "factor" not in _nac_params and nac_factor is not None:\n        _nac_params["factor"] = nac_factor', '    if _nac_params and nac_factor is not None:\n        _nac_params = {"factor": nac_factor, **_nac_params}')
     b("unit-cell masses read from the supercell before it is updated", API, "        u2s_map = self._supercell.u2s_map\n        u_masses = s_masses[u2s_map]\n        self._unitcell.set_masses(u_masses)", "        self._unitcell.set_masses(self._unitcell.masses)", "R16h", "self._unitcell")
     b("dumper settings merged into the class-level defaults", YML, "        self._dumper_settings = self._default_dumper_settings.copy()", "        self._dumper_settings = self._default_dumper_settings", "R16j", "_default_dumper_settings")
+    b("default units looked up with the raw calculator argument", "phonopy/cui/load.py", "    units = get_default_physical_units(_calculator)", "    units = get_default_physical_units(calculator)", "R16k", "calculator")
     return V
